@@ -115,7 +115,9 @@ class Prop:
                         continue
                     parts.append([rng.choice([b'$GPGGA,123519,4807.038,N,01131.000,E,1,08,0.9,545.4,M,46.9,M,,*47',
                                               b'!AIVDM,1,1,,A,\x00\x01,0*00', b'$PGHP,1,2021,2,30,3,4,5,6,219,1,2,1,6D*00',
-                                              b'!short', b'\\s:x*00\\!AIVDM,garbage', b'!AIVDM,1,1,,A,,0*26'])])
+                                              b'!short', b'\\s:x*00\\!AIVDM,garbage', b'!AIVDM,1,1,,A,,0*26',
+                                              # line noise: short, not ASCII (every reader drops it and carries on)
+                                              b'!\xc3\xa9', b'$\xff\xfe', b'!sh\xf8rt', b'\\\xe6\xb8\xaf', b'!AIVDM,\xff'])])
                 else:
                     parts.append([gen.tag_block(b's:only') + gen.render(gen.payload_bits(rng, 'MessageType27'))[0]])
             if i % 3 == 0:
